@@ -101,8 +101,9 @@
 (*              views resolved once at construction keep pointing at the   *)
 (*              caller's writer: n and err stay right, but every later     *)
 (*              unit routed through such a view still reaches the writer:  *)
-(*              NoWriteAfterFailure and PrefixDelivered violated, only for *)
-(*              writers that HAVE the interface.                           *)
+(*              NoWriteAfterFailure, PrefixDelivered and (a recovering     *)
+(*              writer accepts more) CountExact violated, only for writers *)
+(*              that HAVE the interface.                                   *)
 (*                                                                         *)
 (* Actions: ChooseWriter (enumeration staged in Next), Unit(sz, kind) --   *)
 (* one per print, Return, NextCall.  Chunk sequences are enumerated on the fly: every *)
@@ -434,7 +435,9 @@ NoHistory    == ~(Done /\ sess.call > 1 /\ sess.prevFailed /\ obs.failedAt = 0 /
 \* after the first; every optional method is used
 NoThreePieces      == ~(Done /\ obs.pieces >= 3)
 NoFailInLaterPiece == ~(Done /\ obs.failedAt # 0 /\ obs.calls > Len(chunks))
-OnlyWrite          == ~(Done /\ obs.methods = {"Write", "WriteString", "WriteByte", "ReadFrom"})
+NoWriteString      == ~(Done /\ "WriteString" \in obs.methods)
+NoWriteByte        == ~(Done /\ "WriteByte" \in obs.methods)
+NoReadFrom         == ~(Done /\ "ReadFrom" \in obs.methods /\ obs.failedAt # 0)
 
 ----------------------------------------------------------------------------
 (* Generator: one vector per (chunk sequence, writer behaviour) at "done".  Route = "fmt" never
